@@ -321,8 +321,12 @@ Section GetItem.
     | [INone] | [IMask [] _] => true
     | _ => forallb is_none idx
     end.
+  (* TensorDictBase.__getitem__ (base.py:571-586): `if all(isinstance(idx, slice) and idx == slice(None) for idx in index):
+     return self` -- whatever the number of slices *)
+  Definition is_full_slice (it : item) : bool := match it with ISl None None None => true | _ => false end.
   Definition m_getitem (m : arr) (idx : list item) : res arr :=
     if is_stack m then lz_getitem m idx
+    else if forallb is_full_slice idx then Ok m
     else match shape_of m with
          | Some [] => if rank0_index_ok idx then Ok (Index idx m) else Raised
          | _ => Ok (Index idx m)
